@@ -29,7 +29,9 @@ func init() {
 			"unexported and '-' fields are neither encoded nor written. non-trivial = definition the model rejects or judges undocumented",
 		Assumptions: []string{"ref.Accept is the documented acceptance rule (DESIGN Appendix A rule 12 and C08's statement); indexes above 65536 are outside the alphabet (fieldsByIndex is a dense slice)"},
 		Work:        c08Work,
-		Post:        func(a *mc.Agg) []string { return needDims(a, "verdict:accept", "verdict:reject", "verdict:either", "set:kinds", "set:tags", "set:dups", "set:unexported", "subtype-probe") },
+		Post: func(a *mc.Agg) []string {
+			return needDims(a, "verdict:accept", "verdict:reject", "verdict:either", "set:kinds", "set:tags", "set:dups", "set:unexported", "subtype-probe")
+		},
 	})
 }
 
